@@ -19,6 +19,7 @@ import (
 	"errors"
 	"fmt"
 	"io"
+	"math"
 	"net/http"
 	"strconv"
 	"strings"
@@ -421,6 +422,14 @@ func restDecodeTimeout(timeout string) (time.Duration, error) {
 	val, err := strconv.ParseFloat(timeout, 64)
 	if err != nil {
 		return 0, fmt.Errorf("invalid timeout %q: %w", timeout, err)
+	}
+	if val < 0 || val != val || strings.ContainsAny(timeout, "xXpPiIn_") {
+		// negative, NaN, infinite or hexadecimal: not a decimal number of seconds
+		return 0, fmt.Errorf("invalid timeout %q", timeout)
+	}
+	if val >= float64(math.MaxInt64)/float64(time.Second) {
+		// beyond what a duration can represent: clamp rather than overflow
+		return time.Duration(math.MaxInt64), nil
 	}
 	return time.Duration(val * float64(time.Second)), nil
 }
